@@ -199,10 +199,17 @@ def run(chk: Check) -> None:
         n_streams = 40 if not thorough else 600
         for si in range(n_streams):
             lines = []
+            # every fourth stream is about the one piece of state the serial receive path keeps across lines: the sync
+            # cycles it tracks from I|1F09 (whole, truncated to 1-2 bytes, zero countdown; three controllers)
+            sync_biased = si % 4 == 3
             for _ in range(rnd.randint(3, 7)):
                 r = rnd.random()
                 fr = rnd.choice(base)
-                if r < 0.55:
+                if sync_biased and r < 0.7:
+                    c = rnd.choice(("01:145038", "01:223036", "01:078710"))
+                    pl = rnd.choice(("FF073F", "FF073F", "FF0000", "FF", "FF07", "F8", "00FFFF", "FF073F00"))
+                    lines.append(f"045  I --- {c} --:------ {c} 1F09 {len(pl) // 2:03d} {pl}".encode())
+                elif r < 0.55:
                     lines.append(f"{rnd.choice(('045', '000', '067'))} {fr}".encode())
                 elif r < 0.7:
                     lines.append(f"045 {rt.mutate(rnd, fr)}".encode().replace(b"\n", b"").replace(b"\r", b""))
